@@ -1,1 +1,44 @@
 // hook for meet_pass/train_disp/mod.rs (child module: `use super::*;` reaches the file's private items)
+// (inherent methods: visible crate-wide although this hook module is private)
+#[cfg(kani)]
+mod kani_support {
+    use super::super::*;
+
+    impl TrainDisp {
+    /// a train with an empty path that is finished (free index 0 == path length 0) or not (free index 1)
+    pub(crate) fn verif_mk_train(finished: bool) -> TrainDisp {
+        let mut t = TrainDisp::default();
+        t.disp_path.clear();
+        t.disp_node_idx_free = if finished { None } else { std::num::NonZeroU16::new(1) };
+        t.is_blocked = false;
+        t.time_update = si::Time::ZERO;
+        t
+    }
+
+    /// ghost state written by the stub of update_free_path: visited flag and the status it returned
+    pub(crate) fn verif_visited(t: &TrainDisp) -> bool {
+        t.is_blocked
+    }
+    pub(crate) fn verif_returned_blocked(t: &TrainDisp) -> bool {
+        t.time_update.value != 0.0
+    }
+
+    /// stands for TrainDisp::update_free_path: records the visit (never twice) and returns an arbitrary status
+    pub(crate) fn verif_stub_update_free_path(
+        this: &mut TrainDisp,
+        _train_idx_moved: TrainIdx,
+        _link_idxs_blocked: &[LinkIdx],
+        _is_local: bool,
+        _links_blocked: &[TrainIdx],
+    ) -> anyhow::Result<free_path::FreePathStatus> {
+        assert!(!this.is_blocked, "update_free_path called twice on one train");
+        this.is_blocked = true;
+        if kani::any() {
+            this.time_update = si::Time::ZERO + uc::S * 1.0;
+            Ok(free_path::FreePathStatus::Blocked)
+        } else {
+            Ok(free_path::FreePathStatus::UpdateSuccess)
+        }
+    }
+}
+}
